@@ -9,7 +9,7 @@ ordered containers only. Float formatting and the insides of external crates are
 """
 import re
 
-from ..cfg import F
+from ..cfg import F, place_fields
 
 CRATES = ['trust_runtime', 'trust_hir', 'trust_syntax']
 NODEFAULT_OK = False
@@ -88,6 +88,115 @@ def run(ctx):
                 if s[0] == 'A' and s[2][0] == 'cast' and 'PointerExpose' in s[2][1]:
                     r2.saw()
                     r2.bad('ambient|%s|ptr-to-int' % n, 'a pointer is cast to an integer (address-dependent value)', loc=fn.loc(b))
+
+    # premises of two reviewed R2 exceptions -----------------------------------------------------------------------
+    # (a) MetricsSubsystem::start_timer reads the wall clock "for metrics only": whatever derives from the timer is
+    #     handed to the metrics recorder and to nothing else (no state field, no event, no other call)
+    PROP = re.compile(r'Instant::elapsed$|Duration::(as_\w+|subsec_\w+|saturating_\w+|checked_\w+)$|Option::<.*>::(map|take|is_some|is_none|unwrap_or\w*|copied|cloned|as_ref|and_then)$|Try>::branch$|'
+                      r'From<.*>( for [^>]+)?>::from$|TryFrom<.*>( for [^>]+)?>::try_from$|Into<.*>>::into$|Result::<.*>::(unwrap_or\w*|ok|map)$|::clone$|core::num::<impl \w+>::(saturating|checked|wrapping)_\w+$|FromResidual')
+    SINK = re.compile(r'metrics_subsystem::MetricsSubsystem::record_\w+$|metrics::RuntimeMetrics::record_\w+$|core::mem::drop$')
+    n_timer = 0
+    for n in sorted(local):
+        fn = F(fx.fns[n])
+        starts = fn.calls(lambda x: x.endswith('metrics_subsystem::MetricsSubsystem::start_timer'))
+        if not starts:
+            continue
+        n_timer += 1
+        r2.saw()
+        derived = {t['d'][0] for b, nm, t in starts if not t['d'][1]}
+        bad = None
+        changed = True
+        while changed and bad is None:
+            changed = False
+            for b in fn.g:
+                for st in fn.bbs[b]['s']:
+                    if st[0] != 'A':
+                        continue
+                    ops_ = []
+                    rv = st[2]
+                    if rv[0] == 'use':
+                        ops_ = [rv[1]]
+                    elif rv[0] in ('cast', 'un'):
+                        ops_ = [rv[2]]
+                    elif rv[0] == 'bin':
+                        ops_ = [rv[2], rv[3]]
+                    elif rv[0] == 'ref':
+                        ops_ = [['c', rv[2]]]
+                    elif rv[0] == 'agg':
+                        ops_ = list(rv[2])
+                    elif rv[0] == 'discr':
+                        ops_ = [['c', rv[1]]]
+                    if any(o[0] in ('c', 'm') and o[1][0] in derived for o in ops_):
+                        if st[1][1] and any(isinstance(e, list) and e[0] == 'f' for e in st[1][1]) and st[1][0] not in derived:
+                            fs = place_fields(st[1])
+                            bad = (b, 'is stored into %s' % (fs[-1] if fs else 'a field'))
+                            break
+                        if st[1][0] not in derived:
+                            derived.add(st[1][0])
+                            changed = True
+                if bad:
+                    break
+                t = fn.term(b)
+                if t['k'] == 'call' and any(a[0] in ('c', 'm') and a[1][0] in derived for a in t['a']):
+                    nm = fn.call_name(b) or 'indirect'
+                    if SINK.search(nm):
+                        continue
+                    if PROP.search(nm):
+                        if not t['d'][1] and t['d'][0] not in derived:
+                            derived.add(t['d'][0])
+                            changed = True
+                        continue
+                    bad = (b, 'is passed to %s' % nm.split('::')[-1])
+                    break
+        key = 'timer-only-feeds-metrics|%s' % n.replace('trust_runtime::', '').split('::{closure')[0]
+        if bad:
+            r2.bad(key, 'a value derived from the metrics timer (host wall-clock time) %s: scheduling state or events then depend on how long the host took, not on the clock trace' % bad[1], loc=fn.loc(bad[0]))
+        else:
+            r2.ok(key, detail='timer-derived values reach only the metrics recorder')
+    if n_timer == 0:
+        r2.note('no caller of MetricsSubsystem::start_timer in reachable code')
+    # (b) the compiler's inputs are the caller's texts and path strings: nothing handed to the bytecode builder derives
+    #     from the file system or the process environment (source keys are canonicalised for the semantic project only)
+    FS = re.compile(r'^std::fs::|^std::env::|std::path::Path::(canonicalize|exists|is_file|is_dir|metadata|symlink_metadata|read_link|read_dir|try_exists)$')
+    fs_memo = {}
+
+    def reaches_fs(fid):
+        if fid not in fs_memo:
+            fs_memo[fid] = any(FS.search(x) for x in cg.reach([fid]))
+        return fs_memo[fid]
+    from ..dep import deps as _deps
+    n_builder = 0
+    for n in sorted(local):
+        if not n.startswith('trust_runtime::harness::build::'):
+            continue
+        fn = F(fx.fns[n])
+        for b, nm, t in fn.calls(lambda x: re.search(r'BytecodeModule>?::from_runtime\w*$|BytecodeEncoder::<.*>::new$|BytecodeEncoder::new$', x) is not None):
+            r2.saw()
+            n_builder += 1
+            key = 'builder-inputs-ambient-free|%s|%s' % (n.split('::')[-1], nm.split('::')[-1])
+            culprit = None
+            for a in t['a']:
+                al = a[1][0] if a[0] in ('c', 'm') else None
+                if al is not None and re.search(r'runtime::core::Runtime$', fn.local_ty(al).lstrip('&').replace('mut ', '')):
+                    continue        # the built runtime itself: its construction is covered by the reachability part of R1/R2
+                d = _deps(fn, a)
+                for cb, cn in d.calls:
+                    if FS.search(cn) or (cn in fx.fns and reaches_fs(cn)):
+                        culprit = cn
+                        break
+                for cid in d.closures:
+                    if culprit is None and cid in fx.fns and reaches_fs(cid):
+                        hits = [x for x in cg.reach([cid]) if FS.search(x)]
+                        culprit = (hits[0] if hits else cid)
+                if culprit:
+                    break
+            if culprit:
+                r2.bad(key, 'an argument of %s derives from %s, which reads the file system / process environment (canonicalisation depends on the working directory and on what exists on disk): the same texts and path strings then compile to different bytes in different processes' % (nm.split('::')[-1], culprit.split('::')[-1]), loc=fn.loc(b))
+            else:
+                r2.ok(key, loc=fn.loc(b))
+
+    if n_builder == 0:
+        r2.bad('anchor-missing|builder-calls', 'no call of the bytecode builder found in harness::build (rule would be vacuous)')
 
     # ------------------------------------------------------------------ R3
     r3 = ctx.rule('C05.R3', 'encoder emission loops iterate ordered containers (IndexMap / Vec / slice / BTreeMap), never a hash container', floor=20, floor_what='iteration sites in the encoder')
